@@ -213,6 +213,9 @@ theorem slStreamFrame_cnt (k : Kind) (hk : k ∉ slKinds) (r : R) (fr : Frame.Fr
   all_goals simp [knownStream_cnt k hk, unknownStream_cnt k ⟨h1, h2, h3⟩]
 
 
+@[simp] theorem closeIfClosing_out (r : R) : (closeIfClosing r).out = r.out := by
+  simp only [closeIfClosing]; split <;> rfl
+
 theorem slFrame_cnt (k : Kind) (hk : k ∉ slKinds) (r : R) (fr : Frame.Frame) :
     cnt k (slFrame r fr).out = cnt k r.out := by
   have hk' := hk
